@@ -120,6 +120,7 @@ pub fn has_tag(case: &Case, tag: &str) -> bool {
                 && m.effective_obj()[j] == 0.0
                 && m.rows.iter().all(|r| r.coefs[j] == 0.0)
         }),
+        "no-variables" => m.n() == 0,
         // every variable continuous (an LP)
         "continuous" => m.is_continuous(),
         // the equality rows are linearly dependent (exact rank < number of equality rows)
